@@ -21,8 +21,10 @@ import (
 // Plan is one TLC run: bounds of the dynamic part and which universes are explored.
 type Plan struct {
 	Name     string
-	NI, NT   int
-	MaxGen   [2]int
+	NI, NT   int    // slots (the alphabet); universes may leave slots unused
+	UseNI    int    // slots used by seeded universes and by designed universes 1..5
+	UseNT    int
+	MaxGen   [2]int // generations per set in those universes
 	Designed []int // indices into Designed of ServiceTriggerMC
 	UniIdx   []int // seeded universe numbers (decoded by UniAt in TLA+)
 	PickOne  bool  // use only the first seeded universe that complements the designed ones (see ServiceTriggerMC)
@@ -67,9 +69,9 @@ func (p Plan) mcCfg(emit bool, phase int) string {
 	}
 	return fmt.Sprintf("CONSTANTS\n NI = %d\n NT = %d\n MaxGen <- cMaxGen\n Times = {0, 1, 2, 3, 4}\n BlockNums = {0, 1, 2, 3}\n"+
 		" TsOpts = {0, 1, 2, 3, 4}\n ExpOpts = {0, 1, 2, 3}\n LogOpts <- cLogOpts\n MemberOpts <- cMemberOpts\n ActOpts <- cActOpts\n"+
-		" UniIdx <- cUniIdx\n DesignedIdx <- cDesignedIdx\n PickOne = %s\n Emit = %s\n EMod = %d\n EPhase = %d\n NMod = %d\n NPhase = %d\n"+
+		" UniIdx <- cUniIdx\n DesignedIdx <- cDesignedIdx\n UseNI = %d\n UseNT = %d\n PickOne = %s\n Emit = %s\n EMod = %d\n EPhase = %d\n NMod = %d\n NPhase = %d\n"+
 		"SPECIFICATION Spec\nPROPERTY StepProps\nINVARIANT EmitInv\nVIEW View\nCHECK_DEADLOCK FALSE\n",
-		p.NI, p.NT, strings.ToUpper(fmt.Sprint(p.PickOne)), strings.ToUpper(fmt.Sprint(emit)), emod, phase%emod, nmod, phase%nmod)
+		p.NI, p.NT, p.UseNI, p.UseNT, strings.ToUpper(fmt.Sprint(p.PickOne)), strings.ToUpper(fmt.Sprint(emit)), emod, phase%emod, nmod, phase%nmod)
 }
 
 func (p Plan) trModule() (string, []byte) {
@@ -78,7 +80,7 @@ func (p Plan) trModule() (string, []byte) {
 }
 
 func (p Plan) trCfg() string {
-	return fmt.Sprintf("CONSTANTS\n NI = %d\n NT = %d\n MaxGen <- cMaxGen\n TraceFile = \"trace.ndjson\"\nSPECIFICATION TSpec\nINVARIANT Done\nCHECK_DEADLOCK FALSE\n", p.NI, p.NT)
+	return fmt.Sprintf("CONSTANTS\n NI = %d\n NT = %d\n TraceFile = \"trace.ndjson\"\nSPECIFICATION TSpec\nINVARIANT Done\nCHECK_DEADLOCK FALSE\n", p.NI, p.NT)
 }
 
 // Gen is what TLC produced for one plan.
@@ -236,12 +238,53 @@ func maximal(beh [][]int) [][]int {
 	return out
 }
 
+// sample draws at most max histories, the same quota from every universe (so that the small
+// targeted universes are not drowned by the big ones); unused quota goes to the others.
 func sample(beh [][]int, max int, rng *rand.Rand) [][]int {
 	if max <= 0 || len(beh) <= max {
 		return beh
 	}
-	rng.Shuffle(len(beh), func(i, j int) { beh[i], beh[j] = beh[j], beh[i] })
-	return beh[:max]
+	by := map[int][][]int{}
+	var keys []int
+	for _, b := range beh {
+		if _, ok := by[b[0]]; !ok {
+			keys = append(keys, b[0])
+		}
+		by[b[0]] = append(by[b[0]], b)
+	}
+	sort.Ints(keys)
+	for _, k := range keys {
+		l := by[k]
+		sort.Slice(l, func(i, j int) bool { return lessInts(l[i], l[j]) })
+		rng.Shuffle(len(l), func(i, j int) { l[i], l[j] = l[j], l[i] })
+	}
+	var out [][]int
+	left := max
+	for len(keys) > 0 && left > 0 {
+		quota := left / len(keys)
+		if quota == 0 {
+			quota = 1
+		}
+		var rest []int
+		for _, k := range keys {
+			l := by[k]
+			n := quota
+			if n > len(l) {
+				n = len(l)
+			}
+			if n > left {
+				n = left
+			}
+			out = append(out, l[:n]...)
+			by[k] = l[n:]
+			left -= n
+			if len(by[k]) > 0 {
+				rest = append(rest, k)
+			}
+		}
+		keys = rest
+	}
+	return out
 }
 
 // Stats of a replay.
@@ -559,18 +602,21 @@ func plans(c *core.Ctx) []Plan {
 		}
 		return o
 	}
+	// designed universes 1..4 boundary scenarios, 5 same activation block, 6..9 targeted (see ServiceTriggerMC)
 	if c.Thorough() {
 		return []Plan{
-			{Name: "thorough", NI: 3, NT: 2, MaxGen: [2]int{2, 2}, Designed: []int{1, 2, 3, 4}, UniIdx: rnd(4), EMod: 4, NMod: 16, MaxE: 40000, MaxN: 40000, MaxB: 15000},
-			{Name: "sameact", NI: 3, NT: 1, MaxGen: [2]int{2, 1}, Designed: []int{5}, UniIdx: rnd(1), SameAct: true, EMod: 2, NMod: 8, MaxE: 5000, MaxN: 3000, MaxB: 2000},
+			{Name: "thorough", NI: 4, NT: 2, UseNI: 3, UseNT: 2, MaxGen: [2]int{2, 2}, Designed: []int{1, 2, 3, 4, 6, 7, 8, 9}, UniIdx: rnd(4), EMod: 4, NMod: 16, MaxE: 42000, MaxN: 42000, MaxB: 18000},
+			{Name: "sameact", NI: 4, NT: 2, UseNI: 3, UseNT: 1, MaxGen: [2]int{2, 1}, Designed: []int{5}, UniIdx: rnd(1), SameAct: true, EMod: 2, NMod: 8, MaxE: 5000, MaxN: 3000, MaxB: 2000},
 		}
 	}
-	// quick: one of the four designed universes (rotating with the seed) and one seeded one
+	// quick: one of the four boundary universes (rotating with the seed), the four targeted ones and
+	// one seeded universe picked by the spec
 	d := int(c.Seed % 4)
 	if d < 0 {
 		d = -d
 	}
-	return []Plan{{Name: "quick", NI: 3, NT: 1, MaxGen: [2]int{2, 1}, Designed: []int{1 + d}, UniIdx: rnd(100), PickOne: true, EMod: 2, NMod: 8, MaxE: 1200, MaxN: 1200, MaxB: 400}}
+	return []Plan{{Name: "quick", NI: 4, NT: 2, UseNI: 3, UseNT: 1, MaxGen: [2]int{2, 1}, Designed: []int{1 + d, 6, 7, 8, 9}, UniIdx: rnd(100), PickOne: true,
+		EMod: 2, NMod: 8, MaxE: 2400, MaxN: 1800, MaxB: 600}}
 }
 
 // Check runs the C02 check.
